@@ -81,7 +81,7 @@ def mc_module(ulists, texts, undo, maxops):
     tx = ",\n   ".join("<<" + ", ".join(tla_line(LINES[c]) for c in t) + ">>" for t in texts)
     base = " @@ ".join(f'("{k}" :> {C.tla_str(set(v))})' for k, v in BASE.items())
     return f"""---- MODULE UnitEnvMC ----
-EXTENDS UnitEnv, Json
+EXTENDS UnitEnvRef, Json
 MCBase == {base}
 MCTypes == <<"Temperature", "Logarithmic", "Standard">>
 MCUnitLists == {{{ul}}}
@@ -105,6 +105,8 @@ SPECIFICATION Spec
 INVARIANT Restored
 INVARIANT Usable
 INVARIANT BaseIntact
+INVARIANT AbsInv
+PROPERTY AbsSpec
 {emit}
 CHECK_DEADLOCK FALSE
 """
@@ -441,6 +443,61 @@ def trace_testsuite(wd):
     return len(acc), rej, r, nev
 
 
+APA_MC = """---- MODULE MC_UnitEnvAbs ----
+EXTENDS Integers, FiniteSets
+Syms == {"x", "y", "m", "tq", "tr", "tb"}
+BaseSyms == {"m", "mol"}
+Types == {"T1", "Temperature"}
+BaseTypes == {"Temperature", "Standard"}
+TypOf == [s \\in Syms \\cup BaseSyms |-> IF s \\in {"tq", "tr"} THEN "T1" ELSE IF s = "tb" THEN "Temperature" ELSE "none"]
+MaxId == 4
+UndoOnFail == %s
+VARIABLES
+  \\* @type: Str -> Int;
+  owner,
+  \\* @type: Str -> Int;
+  towner,
+  \\* @type: Set(Int);
+  live,
+  \\* @type: Int;
+  reg,
+  \\* @type: Int -> Set(Str);
+  units,
+  \\* @type: Int -> Set(Str);
+  done,
+  \\* @type: Int;
+  nextid
+INSTANCE UnitEnvAbs
+Safety == Restored /\\ BaseIntact /\\ Usable
+====
+"""
+
+
+def apalache_proof(wd):
+    """Apalache: IndInv of UnitEnvAbs.tla is inductive and implies Restored / BaseIntact / Usable (no bound on the length of
+    behaviours); without undo-on-failure Safety fails within 4 steps (the proof is not vacuous).  Spec-level only."""
+    import shutil, time
+    d = os.path.join(wd, "apalache")
+    os.makedirs(d, exist_ok=True)
+    shutil.copy(os.path.join(C.ROOT, "spec", "UnitEnvAbs.tla"), d)
+    out = {}
+    def run(name, undo, *args):
+        open(os.path.join(d, "MC_UnitEnvAbs.tla"), "w").write(APA_MC % undo)
+        t0 = time.time()
+        try:
+            p = subprocess.run(["apalache-mc", "check", *args, f"--out-dir={d}/out", "MC_UnitEnvAbs.tla"], cwd=d, capture_output=True, text=True, timeout=900)
+            o = "NoError" if "The outcome is: NoError" in p.stdout else ("Error" if "The outcome is: Error" in p.stdout else "failed:" + p.stdout[-200:])
+        except Exception as e:
+            o = f"not run: {type(e).__name__}"
+        out[name] = {"outcome": o, "wall_s": round(time.time() - t0, 1)}
+    run("Init => IndInv", "TRUE", "--init=Init", "--inv=IndInv", "--length=0")
+    run("IndInv /\\ Next => IndInv'", "TRUE", "--init=IndInv", "--inv=IndInv", "--length=1")
+    run("IndInv => Restored /\\ BaseIntact /\\ Usable", "TRUE", "--init=IndInv", "--inv=Safety", "--length=0")
+    run("sensitivity: without undo Safety fails (expected outcome Error)", "FALSE", "--init=Init", "--inv=Safety", "--length=4")
+    shutil.rmtree(d, ignore_errors=True)
+    return out
+
+
 def run(replay=None):
     V = C.Verdicts(PID, "model_checking")
     if replay:
@@ -479,6 +536,7 @@ def run(replay=None):
     rB = C.run_tlc(wd, "UnitEnvMC", MC_CFG.format(emit="INVARIANT EmitInv"), coverage=False)
     for rr in (r, rB):
         if rr.violated:
+            V.drift(f"TLC: {rr.violated} violated on UnitEnv.tla (spec-level; the code is judged by the replay below)")
             V.notes.append(f"TLC: {rr.violated} violated on the spec of the intended algorithm: {rr.cex[:600]}")
     maxops = 3
     # sensitivity: the constructor without undo leaks
@@ -519,6 +577,9 @@ def run(replay=None):
         "spec_sensitivity_without_undo": r0.violated or "none",
         "testsuite_traces_rejected": rej,
     })
+    if t == "thorough" or os.environ.get("VERIF_APALACHE"):
+        V.cov["apalache_inductive_invariant"] = apalache_proof(wd)
+    V.cov["refinement"] = "every transition TLC explored of UnitEnv.tla is a step (or stuttering) of UnitEnvAbs.tla under the mapping of UnitEnvRef.tla (PROPERTY AbsSpec), and maps into its inductive invariant (INVARIANT AbsInv)"
     V.assumptions += ["the base tables are given; only their stability is checked",
                       "scopes are closed innermost-first (with-statement discipline)"]
     C.cleanup(PID)
